@@ -878,7 +878,8 @@ package rockredis
 //@   ensures fresh(result)
 //@   modifies oldh.UserData
 //@ func (db *RockDB) zIncrSize(ts int64, key []byte, oldh *headerMetaValue, delta int64, wb engine.WriteBatch) (int64, error)
-//@   requires db != nil && oldh != nil && (oldh.Ver == 0 || oldh.Ver == 1) && delta > -4611686018427387904 && delta < 4611686018427387904
+//@   trusted nooverflow size + delta (both are element counts)
+//@   requires db != nil && oldh != nil && (oldh.Ver == 0 || oldh.Ver == 1)
 //@   requires len(oldh.UserData) >= 8 ==> setSize(oldh.UserData) > -4611686018427387904 && setSize(oldh.UserData) < 4611686018427387904
 //@   ensures result1 == nil <==> (len(old(oldh.UserData)) == 0 || len(old(oldh.UserData)) >= 8)
 //@   ensures result1 != errTooMuchBatchSize
@@ -1197,3 +1198,36 @@ package rockredis
 //@   ensures result1 == nil && ghost(misses, db) != old(ghost(misses, db)) ==> ghost(sizedelta, db) == 1
 //@   ensures ghost(wbputs, db.wb) == 0 && ghost(wbdels, db.wb) == 0
 //@   modifies ghost(wbputs, _), ghost(wbdels, _), ghost(wbver, _), ghost(commits, _), ghost(cputs, _), ghost(cdels, _), ghost(cver, _), ghost(misses, db), ghost(hits, db), ghost(readerrs, db), ghost(sizedelta, db), ghost(newsize, db), ghost(sizeupds, db), ghost(tblcnt, db), alloftype(headerMetaValue), ghost(werrs, _)
+
+//@ property C09 C10
+// range removals of a sorted set: a dead (expired / absent) set is never enumerated for removal
+//@ func (db *RockDB) getZSetForRangeWithMinMax(ts int64, key []byte, min []byte, max []byte, useLock bool) (collVerKeyInfo, error)
+//@   requires db != nil
+//@   ensures result1 == nil ==> result0.OldHeader != nil && (result0.OldHeader.Ver == 0 || result0.OldHeader.Ver == 1) && smallTK(result0.Table, result0.VerKey)
+//@   ensures result1 == nil ==> (len(result0.OldHeader.UserData) == 0 || len(result0.OldHeader.UserData) >= 8) && setSize(result0.OldHeader.UserData) >= 0 && setSize(result0.OldHeader.UserData) < 4611686018427387904
+//@   ensures result1 == nil ==> (result0.Expired <==> ghost(collexpired, db) == 1) && (result0.OldHeader.UserData == nil <==> ghost(collabsent, db) == 1)
+//@ func zDecodeScoreKey(ek []byte) (table []byte, key []byte, member []byte, score float64, err error)
+//@   trusted score key decoder (float codec)
+//@ func (r *RockDB) NewDBRangeLimitIteratorWithOpts(opts engine.IteratorOpts) (*engine.RangeLimitedIterator, error)
+//@   trusted opens an engine iterator (engine contract, C20)
+//@   ensures result1 == nil ==> result0 != nil && fresh(result0) && rliOK(result0)
+//@ func (db *RockDB) zRemAll(ts int64, key []byte, wb engine.WriteBatch) (int64, error)
+//@   trusted removes every member and the meta of a live sorted set (checks expiry itself)
+//@   modifies ghost(wbputs, wb), ghost(wbdels, wb), ghost(wbver, wb), ghost(tblcnt, db)
+//@ func (db *RockDB) internalZRemRangeByLex(ts int64, key []byte, min []byte, max []byte, rangeType uint8, wb engine.WriteBatch) (int64, error)
+//@   trusted nooverflow removal counter
+//@   requires db != nil && wb != nil
+//@   callassert NewDBRangeIterator ghost(collexpired, db) != 1 && ghost(collabsent, db) != 1
+//@   ensures result1 == nil && (ghost(collexpired, db) == 1 || ghost(collabsent, db) == 1) ==> result0 == 0 && ghost(wbver, wb) == old(ghost(wbver, wb))
+//@   modifies *
+//@ loop 1
+//@   invariant it != nil && rliOK(it) && ghost(collexpired, db) != 1 && ghost(collabsent, db) != 1 && keyInfo.OldHeader != nil && (keyInfo.OldHeader.Ver == 0 || keyInfo.OldHeader.Ver == 1) && smallTK(keyInfo.Table, keyInfo.VerKey)
+//@   invariant (len(keyInfo.OldHeader.UserData) == 0 || len(keyInfo.OldHeader.UserData) >= 8) && setSize(keyInfo.OldHeader.UserData) >= 0 && setSize(keyInfo.OldHeader.UserData) < 4611686018427387904
+//@ func (db *RockDB) zRemRangeBytes(ts int64, key []byte, keyInfo collVerKeyInfo, offset int, count int, wb engine.WriteBatch) (int64, error)
+//@   trusted nooverflow removal counter
+//@   requires db != nil && wb != nil && keyInfo.OldHeader != nil && (keyInfo.OldHeader.Ver == 0 || keyInfo.OldHeader.Ver == 1) && smallTK(keyInfo.Table, keyInfo.VerKey) && collMetaOK(ZSetType, keyInfo.OldHeader.UserData)
+//@   callassert NewDBRangeLimitIteratorWithOpts !keyInfo.Expired && keyInfo.OldHeader.UserData != nil
+//@   ensures result1 == nil && (keyInfo.Expired || old(keyInfo.OldHeader.UserData == nil)) ==> result0 == 0 && ghost(wbver, wb) == old(ghost(wbver, wb))
+//@   modifies *
+//@ loop 1
+//@   invariant it != nil && rliOK(it) && !keyInfo.Expired && keyInfo.OldHeader != nil && keyInfo.OldHeader.UserData != nil && (keyInfo.OldHeader.Ver == 0 || keyInfo.OldHeader.Ver == 1) && smallTK(keyInfo.Table, keyInfo.VerKey) && collMetaOK(ZSetType, keyInfo.OldHeader.UserData)
